@@ -74,6 +74,8 @@ def _fn_worker(arg):
     kind, modname, prop, name, tier, seed = arg
     t0 = time.time()
     try:
+        import logging
+        logging.disable(logging.CRITICAL)
         from . import extract
         extract.ensure_repo_on_path()
         importlib.import_module(modname)
@@ -121,6 +123,8 @@ def run_check(prop, tier="quick", seed=0, only=None, jobs=None):
     rlimit = None if tier == "quick" else 60_000_000
     units = []
     for ccls in contract.REGISTRY.get(prop, []):
+        if getattr(ccls, "abstract", False):
+            continue   # assumed contract used at call sites only (listed in the evidence assumptions)
         for case_name, case in verify.get_cases(ccls):
             if only and not any(fnmatch.fnmatch(f"{ccls.cname}[{case_name}]", o) for o in only):
                 continue
@@ -221,12 +225,16 @@ def assemble(prop, tier, seed, unit_results, fn_results, wall):
     new_violations = 0
     known_hits = []
     spurious = []
+    seen_names = {}
     for v in violations:
         rep = v.get("replay") or {}
         status = rep.get("status")
         wtext = json.dumps({"model": v.get("model"), "replay": rep}, default=str, sort_keys=True)
         hit = next((k for k in known if k.get("status") == "known" and finding_matches(k, prop, v["obligation"], wtext)), None)
-        fname = "".join(ch if ch.isalnum() or ch in "-_." else "_" for ch in v["obligation"])[:180] + ".json"
+        base = "".join(ch if ch.isalnum() or ch in "-_." else "_" for ch in v["obligation"])[:180]
+        used = seen_names.get(base, 0)
+        seen_names[base] = used + 1
+        fname = base + (f".{used}" if used else "") + ".json"
         rpath = os.path.join(VERIF, "replays", prop, fname)
         with open(rpath, "w") as fh:
             json.dump({"property": prop, "obligation": v["obligation"], "kind": v["kind"], "unit": v["unit"],
